@@ -156,6 +156,64 @@ func metricEngine(seed uint64, tier string, _ []string) {
 			}
 		}
 	}
+	// --- the same functions from several goroutines at once (several tables / servers live in one process) ---
+	{
+		type bi struct {
+			root, id [20]byte
+			idx      int
+			bitlen   int
+		}
+		var work []bi
+		for n := 0; n < 400; n++ {
+			root, id := arr20(pick()), arr20(pick())
+			if root == id {
+				continue
+			}
+			idx, p := dht.VerifBucketIndex(root, id)
+			if p {
+				continue
+			}
+			d := int160.FromByteArray(root).Distance(int160.FromByteArray(id))
+			work = append(work, bi{root, id, idx, d.BitLen()})
+		}
+		var mu sync.Mutex
+		bad := ""
+		var wg sync.WaitGroup
+		for w := 0; w < 8; w++ {
+			wg.Add(1)
+			go func(w int) {
+				defer wg.Done()
+				defer func() {
+					if p := recover(); p != nil {
+						mu.Lock()
+						bad = fmt.Sprint("panic: ", p)
+						mu.Unlock()
+					}
+				}()
+				for rep := 0; rep < 40*scale; rep++ {
+					for i := w; i < len(work); i += 3 {
+						x := work[i]
+						d := int160.FromByteArray(x.root).Distance(int160.FromByteArray(x.id))
+						idx, p := dht.VerifBucketIndex(x.root, x.id)
+						rid := dht.VerifRandomIdInBucket(x.root, x.idx)
+						ridx, p2 := dht.VerifBucketIndex(x.root, rid)
+						if d.BitLen() != x.bitlen || p || idx != x.idx || p2 || ridx != x.idx {
+							mu.Lock()
+							if bad == "" {
+								bad = fmt.Sprintf("root=%s id=%s alone: bitlen=%d bucket=%d; among 8 goroutines: bitlen=%d bucket=%d panic=%v random-id-bucket=%d", hx(x.root[:]), hx(x.id[:]), x.bitlen, x.idx, d.BitLen(), idx, p || p2, ridx)
+							}
+							mu.Unlock()
+							return
+						}
+					}
+				}
+			}(w)
+		}
+		wg.Wait()
+		if bad != "" {
+			emit("oracle C18 concurrent-call-differs:bitlen-bucket-index %s", bad)
+		}
+	}
 	// --- CloserThan over all triples of a pool (incl. id-less and equal-distance ties) ---
 	target := r.bytes(20)
 	var pool []amiT
@@ -173,6 +231,14 @@ func metricEngine(seed uint64, tier string, _ []string) {
 		id := poolIDs[r.intn(len(poolIDs))]
 		port := []int{0, 1, 6881, 65535}[r.intn(4)]
 		pool = append(pool, mkAmi(ip, port, id))
+	}
+	// ties on distance AND address, decided by the port alone: the whole 16-bit range, near and far apart
+	tieID := poolIDs[2+r.intn(len(poolIDs)-2)]
+	for _, port := range []int{0, 1, 2, 30000, 32767, 32768, 32769, 60000, 65534, 65535} {
+		pool = append(pool, mkAmi(ips[0], port, tieID))
+		if port%2 == 0 {
+			pool = append(pool, mkAmi(ips[2], port, nil))
+		}
 	}
 	t160 := int160.FromByteArray(arr20(target))
 	for _, a := range pool {
